@@ -257,11 +257,19 @@ CLAIMED = {
              "character are lexed as proper tokens of exactly that value; the fixed spellings are a complete kernel-checked "
              "table; the size bound follows from the loop condition. Real outputs (exactly as `penne fuzz tokens` produces "
              "them) are lexed by both real lexers and the reference lexer and every lexeme is matched against the shapes the "
-             "theorems cover. Partial: string/char pieces, identifiers and whole-output composition are not theorems.",
+             "theorems cover. Composition: `Lex.fuzz_output_no_lexical_error` - text assembled as fill_to_capacity_with_tokens "
+             "assembles it (`emit`: any blanks, the extra space of add_space_if_necessary before a word-like piece after an "
+             "identifier character, the piece; optional `//` comment; lines ended by LF or CRLF) from ANY pieces the fuzzer can "
+             "draw - identifier-shaped words, every number spelling with every suffix, builtins, punctuation (glued or not: "
+             "`<` `<` is `<<`, `x` `!=` is `x!` `=`, `/` `//` a comment), string and character literals made of printable "
+             "characters, simple escapes, `\\xHH`, `\\u{..}`, raw non-ASCII - lexes without a single error token in the reference "
+             "lexer (closure `Safe` under lexStep; `emit_safe2` by induction over the pieces). Every line of every real output is "
+             "recognised as a member of that language on every run. Partial: the theorem is about the reference lexer; the real "
+             "lexers are tied to it by correspondence (C14), the delta lexer only up to its known divergences.",
         note="Trusted: Lean kernel, the reference lexer's tie to both real lexers (C14 run), the shape regexes used as membership "
              "certificate, the harness calling fill_to_capacity_with_tokens with the CLI's arguments. Randomness comes from the "
              "generator's own thread RNG (not seedable without a hook): the replay of a failure is the output text itself.",
-        technique="Lean 4 proof (per-piece, all payloads) + certificate-checked correspondence on real fuzzer outputs",
+        technique="Lean 4 proof (per-piece for all payloads; whole-output composition over the emission model) + certificate-checked correspondence on real fuzzer outputs",
         design="§4 C19"),
     "C20": dict(
         text="Lean model of the rebuilder at token level (one printing arm per node kind) and of the parser; theorems "
